@@ -106,7 +106,7 @@ pub(crate) fn compute_new_worker_query(
         .iter()
         .filter_map(|queue| {
             let rqv = core.get_resource_rq(queue.resource_rq_id);
-            if !rqv.is_multi_node() {
+            if !rqv.is_multi_node() || queue.size() == 0 {
                 return None;
             }
             let rq = rqv.unwrap_first();
